@@ -44,7 +44,7 @@ int vnadata_set_fprecision(vnadata_t *vdp, int precision)
 	errno = EINVAL;
 	return -1;
     }
-    if (precision < 1) {
+    if (precision < 1 || precision > VNADATA_MAX_PRECISION) {
 	_vnadata_error(vdip, VNAERR_USAGE, "vnadata_set_fprecision: "
 		"invalid precision: %d", precision);
 	return -1;
